@@ -415,7 +415,7 @@ REGISTRY = {
                   ("PsProps.C11", "Ps.Props.C11_wrappers_catch"), ("PsProps.C11", "Ps.Props.C11_wrappers_without_try"),
                   ("PsProps.C11", "Ps.Props.C11_errno_only_on_error"), ("PsProps.C11", "Ps.Props.C11_type_switch")],
         tie=combine(("iterc", streams.ITERC.tie), ("store", streams.STORE.tie), ("nth", streams.NTH.tie),
-                    ("print", streams.PRINT.tie)),
+                    ("print", streams.PRINT.tie), ("capi", streams.CAPI.tie)),
         witness=combine_witness(streams.ITERC.witness, streams.STORE.witness, streams.NTH.witness),
         assumptions=ITER_ASSUME + ["the wrapper facts are extracted textually from src/api-c.cpp / src/iterator-c.cpp by "
                                    "translator/translate.py (try / catch / errno / return shapes), not from a C++ semantics"],
